@@ -158,6 +158,9 @@ var Kinds = []string{"AND", "OR", "NOT", "LIST", "BASIC"}
 // monitors only).
 var LeftErrStart bool
 
+// PastSpell: stacks made by NewStack have held values before and are empty again (0: fresh).
+var PastSpell int
+
 // CapSpell selects how "no capacity" is spelled by NewStack (set per case by the driver hook).
 var CapSpell int
 var capSpellN int
@@ -181,6 +184,21 @@ func NewStack(kind string, capacity int) stackage.Stack {
 		}
 	}
 	s := NewStackArgs(kind, c...)
+	switch PastSpell {
+	case 1:
+		// an instance with a past: it has held values before, and was emptied again (Reset keeps everything but content)
+		s.Push("past", 7, nil, "gone")
+		s.Reset()
+	case 2:
+		s.Push("past", 7)
+		s.Pop()
+		s.Pop()
+	case 3:
+		s.Push("past")
+		s.Remove(0)
+		s.Insert("past-too", 0)
+		s.Reset()
+	}
 	if AutoMutex {
 		s.SetMutex()
 	}
